@@ -273,6 +273,35 @@ fn main() {
         }
         t
     });
+    // S7: the implication itself on pairs that are NOT built equal: near-equal pairs (a value-equal pair with one
+    // word or one decimal digit of the longer coefficient changed).  Whatever `==` answers, if it says "equal"
+    // the hashes must agree and a HashSet must find one through the other; the answer of `==` itself is C02.
+    let mut nb: Vec<BigInt> = [1i64, 5, 7, 12, 99, 1000].iter().map(|v| BigInt::from(*v)).collect();
+    nb.extend([(BigInt::from(1) << 32usize) + 1, (BigInt::from(1) << 64usize) - 1, (BigInt::from(1) << 64usize) + 10, pow10(19) + 7, big(&filler_digits(run.seed(), 40, 40))]);
+    let ne = near_equal_pairs(tier.pick(24, 60), &nb);
+    run.bound("S7_near_equal_pairs", ne.len());
+    run.par("S7 a == b implies equal hashes (near-equal pairs)", (ne.len() + 255) / 256, |blk| {
+        let mut t = Tally::default();
+        for (a, b) in ne[blk * 256..((blk + 1) * 256).min(ne.len())].iter() {
+            let (xa, xb) = (bd(a), bd(b));
+            t.states += 1;
+            t.transitions += 2;
+            let case = json!({"reference": a.show(), "member": b.show()});
+            match guard(|| (xa == xb, xb == xa, xa.to_ref() == xb.to_ref())) {
+                Err(p) => run.report(Violation::new("PartialEq::eq", "panic", case, "no panic", p)),
+                Ok((false, false, false)) => {}
+                Ok(_) => {
+                    t.nontrivial += 1;
+                    match guard(|| (observe(&xa), observe(&xb))) {
+                        Ok((oa, ob)) if oa == ob => {}
+                        Ok((oa, ob)) => run.report(Violation::new("Hash::hash", "hash_differs", case, format!("== holds, so equal hashes: {:?}", oa.rec.calls), format!("{:?}", ob.rec.calls)).attr("scale", b.s.to_string()).attr("eq_but_not_value_equal", true)),
+                        Err(p) => run.report(Violation::new("Hash::hash", "panic", case, "no panic", p)),
+                    }
+                }
+            }
+        }
+        t
+    });
     // S5: slices / Vec of decimals: element-wise value-equal sequences must feed identical data too
     // (Hash::hash_slice is part of the same trait impl)
     let seq_pool: Vec<Vec<Dec>> = vec![
